@@ -5,6 +5,14 @@ VERIF = os.path.dirname(os.path.dirname(os.path.abspath(__file__)))
 props = [json.loads(l) for l in open(os.path.join(VERIF, "properties.jsonl"))]
 
 CLAIMED = {
+    "C15": dict(
+        text="GaussSS.tla obtains the stationary covariance of each library model as the exact solution of its Lyapunov equation (rational "
+             "Gauss-Jordan), builds C(k) = T^k Omega and the measurement block (lagged states, shared measurement shocks), and marks variables "
+             "loaded on a unit root as NaN; TLC checks the Lyapunov identity and the s^2 scaling law on every scenario. get_acov, get_acorr, "
+             "get_acov_dimension_names and rescale_stds are compared entry by entry through the reported names.",
+        note="Trusted: TLC, scipy Lyapunov solver/numpy. Bounds: library models L1, L2, L3, L9 and the unit-root model L5, orders 0..2, 4 std settings; "
+             "the scale law is additionally exercised at scales 1e-3 and 1e-7 against the exact values.",
+        design="5/C15", technique="TLA+ spec (GaussSS over RatLin/ModelLib) model-checked by TLC in exact rational arithmetic; every TLC-computed scenario replayed into irispie"),
     "C01": dict(
         text="ModelLib.tla holds small linear RE models (structural equations, measurement block) with a reduced-form certificate that is not "
              "trusted: LinearRE.tla simulates period by period and TLC checks in exact rational arithmetic, on every behaviour, that every "
